@@ -3,7 +3,7 @@
    "lines"; [c17_check] runs the model on the same declaration and compares. *)
 From Coq Require Import String List NArith Bool.
 From J5V.lib Require Import Outcome Corr Strcase.
-From J5V.model Require Import Entity.
+From J5V.model Require Import Entity EntityClient.
 Import ListNotations.
 Local Open Scope bool_scope.
 Local Open Scope N_scope.
@@ -95,10 +95,27 @@ Definition client_lines (c : client_entity) : list line :=
   ++ map (fun m => (12, [fst m; snd m], [1])) (ce_query_methods c)
   ++ flat_map (fun s => map (fun m => (13, [fst s; fst (fst m); snd m], [snd (fst m)])) (snd s)) (ce_commands c).
 
-Definition file_pkg_of (es : list entity) : bytes := match es with e :: _ => e_pkg e | [] => [] end.
 
 (* one source file: its entity declarations (same package), whether it compiled, the descriptor
    dump, whether the client API could be derived, the StateEntity dump in declaration order *)
+Definition file_pkg_of (es : list entity) : bytes := match es with e :: _ => e_pkg e | [] => [] end.
+
+(* the grouping model (EntityClient.v) run on the compiled components agrees with the direct
+   view of each declared entity, in declaration order *)
+Definition grouping_eqb (a b : grouping) : bool :=
+  bytes_eqb (g_name a) (g_name b) && bytes_eqb (g_schema a) (g_schema b)
+  && list_eqb bytes_eqb (g_primary_key a) (g_primary_key b)
+  && list_eqb bytes_eqb (g_events a) (g_events b)
+  && bytes_eqb (g_query a) (g_query b)
+  && list_eqb bytes_eqb (g_query_methods a) (g_query_methods b)
+  && list_eqb (fun x y => bytes_eqb (fst x) (fst y) && list_eqb bytes_eqb (snd x) (snd y))
+              (g_commands a) (g_commands b).
+Definition grouping_ok (es : list entity) (cs : list component) : bool :=
+  match client_of (file_pkg_of es) cs with
+  | Some gs => list_eqb grouping_eqb gs (map grouping_view es)
+  | None => false
+  end.
+
 Inductive c17case :=
 | EC (es : list entity) (ok : bool) (lines : list line) (client_ok : bool) (clines : list line).
 
@@ -108,6 +125,7 @@ Definition c17_check (c : c17case) : bool :=
       match compile_all es with
       | Ok cs => ok && list_eqb line_eqb (flatten (file_pkg_of es) cs) lines
                  && cok && list_eqb line_eqb (flat_map (fun e => client_lines (client_view e)) es) clines
+                 && grouping_ok es cs
       | Err _ => negb ok
       | _ => false
       end
